@@ -122,7 +122,7 @@ def main():
 
     ctx = multiprocessing.get_context('fork')
     with ctx.Pool(min(a.jobs, len(hs)), maxtasksperchild=1) as pool:
-        recs = pool.map(H.run_harness, [(h, a.tier) for h in hs], chunksize=1)
+        recs = pool.map(H.run_harness, [((prop, h.id), a.tier) for h in hs], chunksize=1)
 
     extra = getattr(mod, 'post_run', None)
     extra_info = extra(recs, a.tier, seed) if extra else {}
